@@ -101,7 +101,7 @@ def run(tier, seed, t0):
         tf = os.path.join(work, "trace.ndjson")
         core.write_ndjson(tf, rows)
         val = core.validate("Trace_Tensor", "J08", tf, work, timeout=3000)
-        rejected, clauses = [], Counter()
+        rejected, clauses = core.track([]), Counter()
         for t, v in zip(rows, val["verdicts"]):
             clauses[v[0]] += 1
             if v[0] != "ok":
